@@ -4,7 +4,7 @@
 against it.  Kept as /verif/seeded/eq-<module>-<k>/ (patch.diff, notes.md, meta.json)."""
 import json, os, shutil, subprocess, sys, tempfile
 mod, k = sys.argv[1], sys.argv[2]
-src = '/tmp/rf/out/%s/%s' % (mod, k)
+src = '%s/%s/%s' % (os.environ.get('RF_SRC', '/tmp/rf/out'), mod, k)
 patch = os.path.join(src, 'patch.diff'); notes = os.path.join(src, 'notes.md')
 wt = tempfile.mkdtemp(prefix='rfwt-'); os.rmdir(wt)
 def run(cmd, **kw): return subprocess.run(cmd, capture_output=True, text=True, **kw)
@@ -37,7 +37,7 @@ ok = '846 passed' in meta.get('tests_with_change', '')
 meta['confirmed'] = ok
 if os.path.exists(notes): meta['what'] = open(notes).read().strip()[:1200]
 if ok:
-    dst = '/verif/seeded/eq-%s-%s' % (mod, k)
+    dst = '/verif/seeded/eq-%s-%s%s' % (mod, os.environ.get('RF_TAG', ''), k)
     os.makedirs(dst, exist_ok=True); shutil.copy(patch, dst)
     if os.path.exists(notes): shutil.copy(notes, dst)
     json.dump(meta, open(os.path.join(dst, 'meta.json'), 'w'), indent=1)
